@@ -20,6 +20,25 @@ from harness.treetrace import TreeTrace, ir_shape, ir_text
 PROP = "C02"
 
 
+def _st(op, sym=""):
+    return {"op": op, "sym": sym, "i": 0, "j": 0, "hasj": False}
+
+
+# quantifier bodies that relate the bound element to a symbol the quantifier does not bind
+BOUND_VS_FREE = [
+    ('<start> ::= <max> ":" <item> ("," <item>)*\n<max> ::= <d>\n<item> ::= <d>\n<d> ::= "0" | "1" | "2" | "3" | "4" | "5" | "6" | "7" | "8" | "9"\n'
+     'where forall <x> in <item>: int(<x>) <= int(<max>)\n',
+     [{"f": "forall", "var": "<x>", "sel": [_st("rule", "<item>")],
+       "body": {"f": "cmp2", "kind": "intle", "sel": [_st("rule", "<x>")], "sel2": [_st("rule", "<max>")]}}]),
+    ('<start> ::= <k> "=" <v> (";" <v>)*\n<k> ::= "a" | "b" | "ab"\n<v> ::= "a" | "b" | "ab" | "ba"\n'
+     'where exists <y> in <v>: str(<y>) == str(<k>)\nwhere forall <z> in <v>: str(<z>) != "ba"\n',
+     [{"f": "exists", "var": "<y>", "sel": [_st("rule", "<v>")],
+       "body": {"f": "cmp2", "kind": "streq", "sel": [_st("rule", "<y>")], "sel2": [_st("rule", "<k>")]}},
+      {"f": "forall", "var": "<z>", "sel": [_st("rule", "<v>")],
+       "body": {"f": "atom", "kind": "strne", "lit": [98, 97], "k": 0, "sel": [_st("rule", "<z>")]}}]),
+]
+
+
 def _search(args):
     from harness.fan import tree_ir
     from harness.search_driver import record_run
@@ -50,6 +69,10 @@ def run(tier, seed):
         settings = {"desired": 6, "generations": rnd.choice([6, 12]), "population": rnd.choice([8, 20])}
         jobs.append((spec, seed + k, [c[1] for c in extra] or None, settings))
         plan.append(("constraints", gid, cons + extra, spec))
+    for spec, phis in BOUND_VS_FREE:
+        for k in range(6 if tier == "quick" else 60):
+            jobs.append((spec, seed + 9000 + k, None, {"desired": 12, "generations": 10, "population": rnd.choice([6, 12])}))
+            plan.append(("constraints", 0, [(p_, "(bound-vs-free constraint %d)" % i) for i, p_ in enumerate(phis)], spec))
     ncomp = 20 if tier == "quick" else 300
     for k in range(ncomp):
         g = gen.rand_grammar(rnd, flavour="text", computed=rnd.choice([1, 2, 3]), classes=gen.SMALL_CLASSES)
